@@ -70,6 +70,7 @@ func init() {
 }
 
 func runC13(c *Ctx) {
+	procStateFresh(c, "S1-per-packet-state")
 	v := c.View(procT + ".processEPIC")
 	if v == nil {
 		return
